@@ -480,6 +480,16 @@ fn check_source(ipi: &ip::IpInfo, exempt: SrcExempt, view: &IfaceView, fam: &str
         }
         return;
     }
+    if src.is_loopback() && ipi.dst.is_loopback() {
+        // a packet from ::1 / 127.0.0.1 to the loopback address was accepted from the network and is
+        // answered in kind (the frame leaves the node with loopback addresses): its own signature,
+        // because the root cause is the ingress filter, not source-address selection
+        s.bad(
+            &format!("{}:source:loopback-to-loopback", fam),
+            format!("{} sent from {} to {} on a physical link (interface addresses: {})", what, src, ipi.dst, addr_list(view)),
+        );
+        return;
+    }
     if !view.owns(&src) {
         s.bad(
             &format!("{}:source:not-own", fam),
